@@ -66,6 +66,10 @@ CLAUSES (statement + quantifier of C04, split; deciding assertion; populated cla
  12 observed at getresults() and the optional CSV files       csv, qvectors-csv
  13 (histories) several evaluations / objects in one process   repeat_calls, wavevector_calls; results-held=3..6,
                                                      held-results-of-equal-shape, held-tables>=2, direct-method-call
+EXTENSION_3 classes 5 / 6: size axis M draws `all-vectors-in-one-shell` lists (every row a sign flip of one vector: one
+|q| group of >= 130 / >= 260 members; tags group-size>=130 / >=260, species-count>=130 / >=260); every library call
+runs inside process_state_unchanged(): np.geterr(), print options, warnings filters, cwd, environment, logging root,
+both global random generators, pandas display options and the number of open file descriptors are as before the call.
 Not asserted on purpose: numofq when 2 qrange / min(2 pi / L) lies within 1e-6 of an integer (the quotient is not the same
 double under every order of the divisions: not crisp); what an sq object built BEFORE an in-place change of its inputs
 returns; labels other than 1..K (the selectors `== 1 ... else` hard-code them).
@@ -94,6 +98,7 @@ comparison (compare_with_reference / _default_set_call): nothing is compared bit
 """
 from __future__ import annotations
 
+import contextlib
 import itertools
 import os
 
@@ -144,6 +149,9 @@ ASSUMPTIONS = [
     "the public methods unary() .. quinary() may be called directly on a system of the matching composition "
     "(getresults() only dispatches on the number of species)",
     "size classes draw their arrays from numpy's generator seeded by a Hypothesis-drawn integer",
+    "a call of sq / getresults / choosewavevector leaves the process-wide state (numpy error handling and print options, "
+    "warnings filters, cwd, environment, logging root, global random generators, pandas display options, number of "
+    "open file descriptors) as it found it",
 ]
 
 ATOL = 1.01e-6
@@ -459,6 +467,60 @@ def range_case(draw):
     return case
 
 
+# ----------------------------------------------------------------------------- process-wide state (EXTENSION_3 class 6)
+
+
+def process_state():
+    """What a call can leave behind without touching any array it returns: the process-wide settings and resources that
+    LATER calls (of any routine) depend on.  {label: comparable value}."""
+    import logging
+    import random
+    import warnings
+
+    import pandas as pd
+
+    st_ = np.random.get_state()
+    try:
+        nfd = len(os.listdir("/proc/self/fd"))
+    except OSError:
+        nfd = -1
+    opts = {}
+    for k in ("display.precision", "display.max_rows", "display.max_columns", "display.width", "display.float_format"):
+        try:
+            opts[k] = repr(pd.get_option(k))
+        except Exception:  # noqa: BLE001 - option unknown to this pandas
+            pass
+    return {"np.geterr()": dict(np.geterr()), "np.geterrcall()": repr(np.geterrcall()),
+            "np.get_printoptions()": sorted((k, repr(v)) for k, v in np.get_printoptions().items()),
+            "len(warnings.filters)": len(warnings.filters), "os.getcwd()": os.getcwd(), "os.environ": dict(os.environ),
+            "logging root (level, handlers, disable)": (logging.root.level, len(logging.root.handlers),
+                                                        logging.root.manager.disable),
+            "np.random global state": (st_[0], st_[1].tobytes(), st_[2], st_[3], st_[4]),
+            "random.getstate()": random.getstate(), "pandas display options": opts,
+            "open file descriptors": nfd}
+
+
+@contextlib.contextmanager
+def process_state_unchanged(what):
+    """The calls made inside the block leave np.geterr(), the print options, the warnings filters, the working
+    directory, the environment, the logging root, both global random generators, pandas' display options and the number
+    of open file descriptors as they found them (on normal return; an exception propagates unchanged)."""
+    before = process_state()
+    yield
+    now = process_state()
+    for label, v in before.items():
+        if now[label] != v:
+            a, b = v, now[label]
+            if isinstance(v, dict):
+                keys = sorted(k for k in set(v) | set(b) if v.get(k) != b.get(k))[:4]
+                a, b = {k: v.get(k) for k in keys}, {k: b.get(k) for k in keys}
+            elif label.endswith("state") or label.endswith("getstate()"):
+                a, b = "<state before>", "<another state: the global generator was used or reseeded>"
+            # put the numeric settings back so that the other cases of this process are judged in a clean state
+            np.seterr(**before["np.geterr()"])
+            raise Violation(f"{what} left process-wide state changed: {label}: {a!r} -> {b!r}")
+
+
 # ----------------------------------------------------------------------------- checking
 
 
@@ -553,6 +615,10 @@ def compare_with_reference(case, nvec, res, tagprefix=""):
             "counts-unequal" if uneq_counts else "counts-equal",
             "shared-q" if shared else "no-shared-q", "outside" if case["outside"] else "inside",
             "cfg-" + case["kind"].split("-")[0], "origin-" + case["cell"]["origin"]]
+    if gsize.max() >= 130:  # EXTENSION_3 class 5: more members of one |q| group than an int8 / uint8 counter holds
+        tags.append("group-size>=260" if gsize.max() >= 260 else "group-size>=130")
+    if counts.max() >= 130:
+        tags.append("species-count>=260" if counts.max() >= 260 else "species-count>=130")
     if floatsplit:
         tags.append("group-with-different-float-norms")
     if mixed:
@@ -584,8 +650,9 @@ def check_explicit(case):
     snaps = snapshots_of(case)
     qin = case["qvector"]
     qv = q_argument(qin, case.get("qrep"))
-    res = sq(snaps, qvector=qv, saveqvectors=case["saveq"],
-             outputfile="sq_out.csv" if case["outfile"] else None).getresults()
+    with process_state_unchanged("sq(qvector=...).getresults()"):
+        res = sq(snaps, qvector=qv, saveqvectors=case["saveq"],
+                 outputfile="sq_out.csv" if case["outfile"] else None).getresults()
     info = compare_with_reference(case, qin, res)
     info.pop("_exp", None)
     if "excluded-boundary" in info["tags"]:
@@ -606,8 +673,9 @@ def check_range(case):
     if abs(x - round(x)) < 1e-6 or int(x) != m:
         return {"nontrivial": False, "tags": ["excluded-numofq-ambiguous"], "extra": {"excluded_numofq": 1}}
     snaps = snapshots_of(case)
-    res = sq(snaps, qrange=qrange, onlypositive=op, saveqvectors=case["saveq"],
-             outputfile="sq_out.csv" if case["outfile"] else None).getresults()
+    with process_state_unchanged("sq(qrange=...).getresults()"):
+        res = sq(snaps, qrange=qrange, onlypositive=op, saveqvectors=case["saveq"],
+                 outputfile="sq_out.csv" if case["outfile"] else None).getresults()
     nvec = np.array(sqref.default_vectors(d, m, op), dtype=np.int64).reshape(-1, d)
     if len(nvec) == 0:
         raise RuntimeError("harness: empty default set generated")
@@ -675,7 +743,8 @@ def check_lattice(case):
     L = np.diag(case["cell"]["H"])
     snaps = snapshots_of(case)
     nvec = case["qvector"]
-    res = sq(snaps, qvector=q_argument(nvec, case.get("qrep"))).getresults()
+    with process_state_unchanged("sq(qvector=...).getresults()"):
+        res = sq(snaps, qvector=q_argument(nvec, case.get("qrep"))).getresults()
     cols = sqref.column_names(K)
     columns("sq.getresults()", res, cols)
     _, qn = sqref.wave_vectors(nvec, L)
@@ -716,7 +785,8 @@ def _default_set_call(case):
     tuples, the array the library returned)."""
     d, numofq, op = case["d"], case["numofq"], case["onlypositive"]
     want = sqref.default_vectors(d, numofq, op)
-    ret = choosewavevector(d, numofq, op)
+    with process_state_unchanged("choosewavevector"):
+        ret = choosewavevector(d, numofq, op)
     got = arr(f"choosewavevector({d}, {numofq}, {op!r})", ret, ndim=2)
     require(got.shape[1] == d or got.shape[0] == 0, f"choosewavevector({d}, {numofq}, {op!r}): shape {got.shape}")
     require(got.size == 0 or np.all(got == np.rint(got)), "non-integer wave vectors")
@@ -733,7 +803,9 @@ def _default_set_call(case):
 def _check_default_set(case):
     d, numofq, op = case["d"], case["numofq"], case["onlypositive"]
     want = sqref.default_vectors_large(d, numofq, op) if case.get("large") else sqref.default_vectors(d, numofq, op)
-    got = arr(f"choosewavevector({d}, {numofq}, {op!r})", choosewavevector(d, numofq, op), ndim=2)
+    with process_state_unchanged("choosewavevector"):
+        ret = choosewavevector(d, numofq, op)
+    got = arr(f"choosewavevector({d}, {numofq}, {op!r})", ret, ndim=2)
     require(got.shape[1] == d or got.shape[0] == 0, f"choosewavevector({d}, {numofq}, {op!r}): shape {got.shape}")
     require(got.size == 0 or np.all(got == np.rint(got)), "non-integer wave vectors")
     rows = sorted(tuple(int(c) for c in r) for r in got.reshape(-1, d).tolist())
@@ -1011,11 +1083,12 @@ def check_repeat(case):
         nonlocal calls, direct_calls
         calls += 1
         try:
-            if direct and sub["K"] in METHOD_OF_K:
-                direct_calls += 1
-                res = getattr(obj, METHOD_OF_K[sub["K"]])()
-            else:
-                res = obj.getresults()
+            with process_state_unchanged(what):
+                if direct and sub["K"] in METHOD_OF_K:
+                    direct_calls += 1
+                    res = getattr(obj, METHOD_OF_K[sub["K"]])()
+                else:
+                    res = obj.getresults()
             info_ = compare_with_reference(sub, sub["qvector"], res)
         except Violation as v:
             raise Violation(f"[{variant}: {what}] {v}") from None
@@ -1269,19 +1342,23 @@ def size_case(draw, deep=False):
     boundary, the other two stay small so that the case is cheap; 'range' = a qrange whose default set holds hundreds
     of vectors.  The arrays are built in the check from the drawn seed (a Hypothesis-drawn seed of numpy's
     generator: the entropy of 1000 x 3 coordinates does not fit Hypothesis' buffer)."""
-    axis = draw(st.sampled_from(["N", "N", "N", "N", "M", "M", "T", "T", "range"]))
-    d = draw(st.sampled_from([2, 3]))
-    K = draw(st.sampled_from([1, 2, 3, 4, 5, 1, 2, 3, 4, 5, 6]))
-    spec = {"axis": axis, "d": d, "K": K, "deep": bool(deep), "seed": draw(st.integers(0, 2 ** 32 - 1)),
+    # The joint class (axis, d, K, boundary value) comes from numpy's generator seeded with two Hypothesis-drawn
+    # integers: uniform and independent over the whole grid.  (Drawn with st.sampled_from, the four came out clumped --
+    # Hypothesis repeats and mutates blocks of earlier draws -- and a change that needs ONE composition at ONE boundary
+    # value, e.g. K = 3 with T in {51, 101, 201}, met 2 instead of ~10 cases per run.)
+    seed, offset = draw(st.integers(0, 2 ** 32 - 1)), draw(st.integers(0, 2 ** 16))
+    rng = np.random.default_rng([seed, offset, 4])
+    axis = str(rng.choice(["N", "N", "N", "N", "M", "M", "T", "T", "range"]))
+    d = int(rng.choice([2, 3]))
+    K = int(rng.choice([1, 2, 3, 4, 5, 1, 2, 3, 4, 5, 6]))
+    spec = {"axis": axis, "d": d, "K": K, "deep": bool(deep), "seed": seed, "offset": offset,
             "cell": draw(box_st(d)), "cfg": draw(st.sampled_from(["gas", "gas", "jittered-lattice", "cluster"])),
             "where": draw(st.sampled_from(["inside", "inside", "some-outside", "all-outside"])),
             "composition": draw(st.sampled_from(["random", "random", "equal", "one-rare"])),
             "qrep": draw(st.sampled_from(QREPS)), "mode": "explicit", "size": None}
 
     def pick(values):
-        # uniform over the boundary values (st.sampled_from visits a list of 42 values very unevenly): the index comes
-        # from numpy's generator seeded with the Hypothesis-drawn seed
-        return values[int(np.random.default_rng([spec["seed"], 4]).integers(len(values)))]
+        return values[int(rng.integers(len(values)))]
 
     spec["outfile"] = draw(st.booleans())
     spec["saveq"] = bool(spec["outfile"] and draw(st.booleans()))
@@ -1295,6 +1372,7 @@ def size_case(draw, deep=False):
             spec.update(mode="range", onlypositive=op, m=m, qrange=_range_for(draw, np.diag(spec["cell"]["H"]), m))
     elif axis == "M":
         spec["size"] = spec["M"] = pick(boundary_values(BLOCKS["M"][deep]))
+        spec["qstyle"] = draw(st.sampled_from(["random", "random", "random", "one-shell"]))
         spec["N"] = draw(st.integers(max(K, 2), 8))
         spec["T"] = draw(st.sampled_from([1, 1, 2]))
     elif axis == "T":
@@ -1317,7 +1395,7 @@ def size_case(draw, deep=False):
 
 def build_size_case(spec):
     """The full case of a size spec (deterministic in the spec)."""
-    rng = np.random.default_rng(spec["seed"])
+    rng = np.random.default_rng([spec["seed"], spec.get("offset", 0)])
     d, K, N, T = spec["d"], spec["K"], spec["N"], spec["T"]
     cell = spec["cell"]
     H, lo = cell["H"], cell["lo"]
@@ -1368,6 +1446,11 @@ def build_size_case(spec):
         q[use] = pyth[rng.integers(0, len(pyth), int(use.sum()))]
         zero = ~q.any(axis=1)
         q[zero, rng.integers(0, d, int(zero.sum()))] = rng.choice([-3, -1, 1, 2], int(zero.sum()))
+        if spec["axis"] == "M" and spec.get("qstyle") == "one-shell":
+            # EXTENSION_3 class 5: ALL rows are sign flips (and repeats) of one vector: a single |q| group with M >= 130 /
+            # >= 260 members (a member counter kept in int8 / uint8 wraps), averaged exactly like any other group
+            base = pyth[rng.integers(0, len(pyth))] if rng.random() < 0.5 else q[0]
+            q = base[None, :] * rng.choice([-1, 1], (M, d))
         case.update(qvector=q.astype(np.int64), qrep=spec["qrep"], batch=None)
     return case
 
@@ -1397,6 +1480,8 @@ def check_size(spec):
         info["tags"].append("size-" + ("B-1" if s_ == b - 1 else "B" if s_ == b else "B+1" if s_ == b + 1 else
                                        "2B-1" if s_ == 2 * b - 1 else "2B+1" if s_ == 2 * b + 1 else "B+B//3"))
     info["tags"].append("cfg-" + spec["cfg"])
+    if spec.get("qstyle") == "one-shell":
+        info["tags"].append("all-vectors-in-one-shell")
     info["nontrivial"] = True
     return info
 
